@@ -414,6 +414,19 @@ func Attack(args []string) {
 				e.attackDir(fmt.Sprintf("truncate %s to %d", rel, l), map[string][]byte{rel: content[:l]}, "strict")
 			}
 			e.attackDir("append garbage to "+rel, map[string][]byte{rel: append(append([]byte{}, content...), []byte("\n{\"x\":1}\n")...)}, "strict")
+			// trailing bytes of every lexical class a decoder might stop at: one byte alone, and the byte followed by more
+			// (a manifest that still decodes to the same content - trailing white space - may be accepted: no class hint there)
+			hint := "strict"
+			if rel == "manifest.json" {
+				hint = ""
+			}
+			for _, b := range []byte{'}', ']', '{', '[', ',', ':', '"', '0', 'x', ' ', '\n', 0} {
+				e.attackDir(fmt.Sprintf("append byte %q to %s", b, rel), map[string][]byte{rel: append(append([]byte{}, content...), b)}, hint)
+				e.attackDir(fmt.Sprintf("append byte %q and more to %s", b, rel), map[string][]byte{rel: append(append(append([]byte{}, content...), b), []byte(" trailing")...)}, hint)
+				if n := len(content); n > 0 && content[n-1] == '\n' && b != '\n' {
+					e.attackDir(fmt.Sprintf("replace the final newline of %s by %q", rel, b), map[string][]byte{rel: append(append([]byte{}, content[:n-1]...), b)}, "")
+				}
+			}
 			if rel != "manifest.json" {
 				e.attackDir("remove "+rel, map[string][]byte{rel: nil}, "strict")
 				other, _ := os.ReadFile(filepath.Join(e.dump2, filepath.FromSlash(rel)))
